@@ -4,8 +4,7 @@ import os, json, re
 ROOT = os.path.dirname(os.path.dirname(os.path.abspath(__file__)))
 sd = os.path.join(ROOT, 'seeded')
 WHY_MISSED = {
-    'C14-g': 'reduce() pushes a placeholder before it calls the functor: wrong only when the push regrows a std::vector stack (run-time buffers, depth exactly 1022 / 2046); the proof is for the fixed-capacity cvector stacks, where the reordered reduce meets its contract (std::vector stacks are in the trusted base)',
-    'C17-h': 'the change is in the rule list of the regex grammar (`number(regex_digit_09)` -> `number()`), i.e. in DSL data, not in a function: that the regex grammar refuses `a{}` is C01 applied to that grammar, not mechanised',
+    'C17-h': 'the change is in the rule list of the regex grammar (`number(regex_digit_09)` -> `number()`), i.e. in DSL data, not in a function: that the regex grammar refuses `a{}` is C01 applied to that grammar, not mechanised; the rule list is pinned as a pattern fact, so the check answers UNDECIDED (exit 2), not OK',
     'C14-b': 'the change is in the parameter list of the helper functor ftors::emplace_back (`Arg&&` -> `const Arg&`, so the std::move in its body copies): signature-level template machinery (C19 territory), outside the extraction',
 }
 rows, results = [], {}
